@@ -167,7 +167,7 @@ func classify(init map[string]string, committed []T, final map[string]string) st
 	for _, t := range committed {
 		for _, s := range t.Steps {
 			switch s.Kind {
-			case "rmw":
+			case "rmw", "replace":
 				if written[s.K] == nil {
 					written[s.K] = map[string]bool{}
 				}
@@ -253,8 +253,13 @@ func genTxn(rnd interface{ Intn(int) int }, id string, nReg, nSet int) plannedTx
 	case 8: // blind remove of a set key + read
 		p.Steps = append(p.Steps, plannedStep{"remove", setKey(rnd.Intn(nSet))}, plannedStep{"read", regKey(rnd.Intn(nReg))})
 	case 9:
-		p.Steps = append(p.Steps, plannedStep{"rmw", regKey(rnd.Intn(nReg))})
-		p.Abort = true
+		if rnd.Intn(2) == 0 {
+			p.Steps = append(p.Steps, plannedStep{"rmw", regKey(rnd.Intn(nReg))})
+			p.Abort = true
+		} else {
+			// replace: remove a register and add it again (a NEW item under the same key: the ABA shape)
+			p.Steps = append(p.Steps, plannedStep{"replace", regKey(rnd.Intn(nReg))})
+		}
 	}
 	// a key is touched at most once per transaction (keeps the model's replay unambiguous)
 	seen := map[string]bool{}
@@ -319,6 +324,24 @@ func execTxn(db sopx.DB, clock *conc.Clock, p plannedTxn) T {
 				if !ok {
 					return fail(fmt.Errorf("UpdateCurrentValue(%s) returned false", s.K))
 				}
+			}
+		case "replace":
+			n++
+			st.W = fmt.Sprintf("%s.%d", p.ID, n)
+			ok, err := b.Remove(conc.Ctx, s.K)
+			if err != nil {
+				return fail(err)
+			}
+			if !ok {
+				return fail(fmt.Errorf("register %s not found for replace", s.K))
+			}
+			ok, err = b.Add(conc.Ctx, s.K, st.W)
+			if err != nil {
+				return fail(err)
+			}
+			st.OK = ok
+			if !ok {
+				return fail(fmt.Errorf("re-add of %s returned false", s.K))
 			}
 		case "add":
 			n++
@@ -403,6 +426,8 @@ func check(init map[string]string, committed []T, final map[string]string) (stri
 					if st[s.K] != s.Saw {
 						return false, state
 					}
+				case "replace":
+					st[s.K] = s.W
 				case "rmw":
 					if st[s.K] != s.Saw {
 						return false, state
@@ -486,6 +511,6 @@ func Run(r *report.Run) int {
 	return r.Finish(rule, assumptions, 10)
 }
 
-const rule = "rounds of 3-7 goroutines x 1-2 transactions (public path, ForWriting and ForReading) over 4-8 register keys spread over several nodes plus set keys: read-only snapshots, read-modify-write, read-A-write-B, blind adds of fresh keys, blind removes, voluntary rollbacks; PRNG delays at L2 calls and before Commit, GOMAXPROCS cycle; history = per transaction the values it read and the unique values it wrote + commit result, stamped at the harness boundary; oracle = porcupine over one operation per committed transaction, all on the same interval (any serial order allowed), plus the quiescent final scan; only values read of existing keys and the final state decide; fingerprint = commit-order signature; non-trivial = >=2 committed transactions share a key and commits overlapped"
+const rule = "rounds of 3-7 goroutines x 1-2 transactions (public path, ForWriting and ForReading) over 4-8 register keys spread over several nodes plus set keys: read-only snapshots, read-modify-write, read-A-write-B, blind adds of fresh keys, blind removes, replace (remove + re-add of a register in one transaction: a new item under the same key), voluntary rollbacks; PRNG delays at L2 calls and before Commit, GOMAXPROCS cycle; history = per transaction the values it read and the unique values it wrote + commit result, stamped at the harness boundary; oracle = porcupine over one operation per committed transaction, all on the same interval (any serial order allowed), plus the quiescent final scan; only values read of existing keys and the final state decide; fingerprint = commit-order signature; non-trivial = >=2 committed transactions share a key and commits overlapped"
 
 var assumptions = []string{"store pre-seeded (README precondition)", "standalone in-memory L2, single process (clustered multi-process half not built yet)", "NoCheck mode is not part of the vocabulary", "porcupine timeout 60 s => inconclusive"}
